@@ -5,11 +5,8 @@
                 (identifier occurrences at a point where the name is not in the flat bound set)
      dbc D B e  "declared before captured": for every lambda inside e, no name that freeze resolves
                 inside the lambda is declared (directly) by a scope that encloses the lambda -
-                D collects the names the enclosing scopes may declare.  Two more side conditions
-                keep freeze's idea of scope and the evaluator's in step: the first iteratee of a
-                for loop declares nothing (it is evaluated in the enclosing frame but frozen in the
-                loop's cloned environment), and a value already frozen into the source contains no
-                closure.
+                D collects the names the enclosing scopes may declare.  One more side condition:
+                a value already frozen into the source contains no closure.
    Definitions only. *)
 From Coq Require Import ZArith String List Bool.
 From NV Require Import Lang.FreezeLang Lang.Freeze Lang.FreezeSpec Lang.FreezeRel.
@@ -93,7 +90,7 @@ Inductive dbc : (name -> Prop) -> list name -> expr -> Prop :=
 | DWhile D B c b :
     dbc (DU D (while_budget c b)) B c -> dbc (DU D (while_budget c b)) (bnd B c) b -> dbc D B (EWhile c b)
 | DFor D B x e cls y body :
-    dbc D B e -> ddecl e = [] ->
+    dbc D B e ->
     dbcC (DU D (for_budget x cls body)) (x :: bnd B e) cls ->
     dbc (DU D (for_budget x cls body)) (bndC (x :: bnd B e) cls) body ->
     dbc D B (EFor x e cls y body)
